@@ -374,7 +374,7 @@ class C09(Prop):
     # theorems about Spec/Inflate.v (Proofs/InflateThms.v, pins in Proofs/InflatePins.v): built and audited here
     INFLATE_THEOREMS = ["inflate_never_fuel", "zlib_decode_res_total", "inflate_step_consumes", "adler32_closed_form", "adler32_fits_u32",
                         "adler32_streaming", "lz_copy_correct", "length_codes_in_range", "distance_codes_in_range",
-                        "huffman_tree_decodes_canonical_code", "huffman_canonical_code_prefix_free", "zlib_decode_stored",
+                        "huffman_tree_decodes_canonical_code", "huffman_canonical_code_prefix_free", "stored_len_check_is_complement", "zlib_decode_stored",
                         "zlib_store_one_block", "C09_decode_encode_zlib_stored", "C09_decode_encode_zlib_stored_multipass"]
     def inflate_theorems(self):
         from ..core import sh
